@@ -27,7 +27,12 @@ func (h *Handler) handleDecline(p packet.DHCP4, options packet.DHCP4Options) (d 
 	serverIP, _ := netip.AddrFromSlice(options[packet.DHCP4OptionServerIdentifier])
 	clientID := getClientID(p, options)
 
-	lease := h.findOrCreate(clientID, p.CHAddr(), "")
+	// look the lease up without creating or re-homing it: a message that is ignored must not change the table
+	lease := h.table[string(clientID)]
+	if lease == nil {
+		Logger.Msg("decline from unknown client - ignore").ByteArray("clientid", clientID).IP("ip", reqIP).IP("serverIP", serverIP).Write()
+		return nil
+	}
 
 	if lease.subnet.DHCPServer != serverIP {
 		Logger.Msg("decline for another server - ignore").ByteArray("clientid", clientID).IP("ip", reqIP).IP("serverIP", serverIP).Write()
@@ -64,8 +69,9 @@ func (h *Handler) handleRelease(p packet.DHCP4, options packet.DHCP4Options) (d 
 	serverIP, _ := netip.AddrFromSlice(options[packet.DHCP4OptionServerIdentifier])
 	clientID := getClientID(p, options)
 
-	lease := h.findOrCreate(clientID, p.CHAddr(), "")
-	if lease.subnet.DHCPServer != serverIP || lease == nil || lease.Addr.IP != reqIP {
+	// look the lease up without creating or re-homing it: a message that is ignored must not change the table
+	lease := h.table[string(clientID)]
+	if lease == nil || lease.subnet.DHCPServer != serverIP || lease.Addr.IP != reqIP {
 		Logger.Msg("release - discard invalid packet").ByteArray("clientid", clientID).IP("serverIP", serverIP).IP("reqip", reqIP).Write()
 		return nil
 	}
